@@ -170,6 +170,7 @@ func cmdReplay(args []string) int {
 		close(results)
 	}()
 
+	reuse := newReusePass()
 	sum := Summary{Prop: *propFlag, Known: map[string]int{}, Features: map[string]int{}, Must: map[string]int{}, Families: map[string]int{}}
 	seen := map[string]bool{}
 	printed := 0
@@ -181,6 +182,7 @@ func cmdReplay(args []string) int {
 			continue
 		}
 		c := res.c
+		reuse.add(c, res.text)
 		h := sha1.Sum([]byte(res.text))
 		id := hex.EncodeToString(h[:8])
 		if !seen[id] {
@@ -242,6 +244,26 @@ func cmdReplay(args []string) int {
 					fmt.Printf("  %s/%s %s\n", c.Fam, c.Op, l)
 				}
 			}
+		}
+	}
+	// instance re-use pass: one operator instance per (operator, attributes, input ranks) applied to all its cases in turn
+	for _, rv := range reuse.run() {
+		sum.Executions++
+		if rv.verdict == "pass" {
+			sum.Pass++
+			continue
+		}
+		sum.Violations++
+		_ = os.MkdirAll(*replayDir, 0o755)
+		h := sha1.Sum([]byte(rv.text))
+		path := filepath.Join(*replayDir, fmt.Sprintf("%s-reuse-%s.json", rv.prop, hex.EncodeToString(h[:8])))
+		_ = os.WriteFile(path, []byte(rv.text+"\n"), 0o644)
+		_ = os.WriteFile(path+".txt", []byte(rv.verdict+"\n"), 0o644)
+		sum.ViolationList = append(sum.ViolationList, path)
+		if printed < *maxPrint {
+			printed++
+			abs, _ := filepath.Abs(path)
+			fmt.Printf("VIOLATION property=%s replay=%s\n  %s\n", rv.prop, abs, rv.verdict)
 		}
 	}
 	if *out != "" {
